@@ -76,6 +76,8 @@ type ptx struct {
 	from, to  int
 	value     int64
 	stepLimit int64
+	msg       int // bytes of message data
+	size      int // len(tx.Bytes()): what counts against the block byte budget
 	committed bool
 }
 
@@ -108,6 +110,7 @@ type c37 struct {
 	chainIDs map[string]bool // reference: every id included in a finalised block
 
 	proposalsWithFilter int
+	fundedSpends        int
 	start               time.Time
 }
 
@@ -182,7 +185,7 @@ func (s *c37) setup() bool {
 		a := walletFor(s.family, i).Address()
 		s.addrs = append(s.addrs, a)
 		unit := s.stepMin*s.price + 10 // what one plain transfer of value 10 needs
-		bal := []int64{20 * unit, 0, unit, 2 * unit, 3*unit - 1, 1_000_000_000}[t.Weighted("balance", 4, 1, 2, 2, 2, 2)]
+		bal := []int64{20 * unit, 0, unit, 2 * unit, 3*unit - 1, 1_000_000_000}[t.Weighted("balance", 4, 3, 2, 2, 2, 3)]
 		ws.GetAccountState(a.ID()).SetBalance(big.NewInt(bal))
 		bals = append(bals, fmt.Sprint(bal))
 	}
@@ -245,7 +248,9 @@ func (s *c37) step() {
 	if s.v.setWaiting.Load() {
 		wFlush = 3
 	}
-	switch t.Weighted("op", 10, 3, 4, wFlush) {
+	switch t.Weighted("op", 10, 3, 4, wFlush, 3) {
+	case 4:
+		s.opFundingChain()
 	case 0:
 		s.opClient()
 	case 1:
@@ -284,31 +289,24 @@ func (s *c37) newTx() *ptx {
 	if value < 0 {
 		value = 0
 	}
-	k := txKey{w: from, to: to, ts: now + off, value: value, stepLimit: stepLimit}
+	msg := []int{0, 90, 300, 700}[t.Weighted("tx-msg", 6, 2, 2, 1)]
+	return s.mkTx(from, to, now+off, value, stepLimit, msg)
+}
+
+func (s *c37) mkTx(from, to int, ts, value, stepLimit int64, msg int) *ptx {
+	k := txKey{w: from, to: to, ts: ts, value: value, stepLimit: stepLimit, msg: msg}
 	for s.used[k] {
 		k.nonce++
 	}
 	s.used[k] = true
 	tx := cachedTx(s.family, k)
-	p := &ptx{tx: tx, id: string(tx.ID()), ts: k.ts, from: from, to: to, value: value, stepLimit: stepLimit}
+	p := &ptx{tx: tx, id: string(tx.ID()), ts: k.ts, from: from, to: to, value: value, stepLimit: stepLimit, msg: msg, size: len(tx.Bytes())}
 	s.known = append(s.known, p)
 	return p
 }
 
-func (s *c37) opClient() {
+func (s *c37) submit(p *ptx, kind string) {
 	t := s.t
-	var p *ptx
-	kind := "fresh"
-	if len(s.known) > 0 && t.Weighted("client-kind", 7, 3) == 1 {
-		p = s.known[t.Choose("resubmit", len(s.known))]
-		kind = "resubmit"
-		if p.committed {
-			kind = "resubmit-committed"
-			s.rc.Probe("client_resubmits_committed_tx")
-		}
-	} else {
-		p = s.newTx()
-	}
 	var err error
 	route := "tm.Add"
 	direct := t.Choose("direct", 2) == 0
@@ -327,8 +325,89 @@ func (s *c37) opClient() {
 	if err == nil && p.committed {
 		s.rc.Probe("committed_tx_entered_pool")
 	}
-	s.rc.Event("client %s %s %s ts=now%+d from=%d to=%d value=%d step=%d direct=%v -> %s",
-		kind, route, short(p.id), p.ts-nowUS(), p.from, p.to, p.value, p.stepLimit, direct, res)
+	s.rc.Event("client %s %s %s ts=now%+d from=%d to=%d value=%d step=%d msg=%d size=%d direct=%v -> %s",
+		kind, route, short(p.id), p.ts-nowUS(), p.from, p.to, p.value, p.stepLimit, p.msg, p.size, direct, res)
+}
+
+// opFundingChain: a chain of transfers in which every recipient has (almost) nothing and
+// spends what it receives: rich -> poor1 -> poor2 ..., the funding transfers optionally
+// carrying message data (so that they are the big ones when a byte budget applies).
+func (s *c37) opFundingChain() {
+	t := s.t
+	now := nowUS()
+	// order accounts by balance: richest first, then poorest first
+	rich := 0
+	for i := 1; i < s.nw; i++ {
+		if s.balanceOf(i).Cmp(s.balanceOf(rich)) > 0 {
+			rich = i
+		}
+	}
+	var poor []int
+	for i := 0; i < s.nw; i++ {
+		if i != rich {
+			poor = append(poor, i)
+		}
+	}
+	for i := 0; i < len(poor); i++ {
+		for j := i + 1; j < len(poor); j++ {
+			if s.balanceOf(poor[j]).Cmp(s.balanceOf(poor[i])) < 0 {
+				poor[i], poor[j] = poor[j], poor[i]
+			}
+		}
+	}
+	hops := 1 + t.Choose("chain-hops", 2) // number of spenders of received funds
+	if hops > len(poor)-1 {
+		hops = len(poor) - 1
+	}
+	fee := s.stepMin * s.price
+	last := int64(1 + 9*t.Choose("chain-last-value", 2)) // value of the last hop
+	// amounts from the end: hop i must forward enough for hop i+1 to pay its fee and value
+	amounts := make([]int64, hops+1)
+	amounts[hops] = last
+	for i := hops - 1; i >= 0; i-- {
+		amounts[i] = amounts[i+1] + fee + int64(t.Choose("chain-extra", 2))
+	}
+	if s.balanceOf(rich).Int64() < amounts[0]+fee {
+		s.rc.Event("funding-chain skipped: richest account cannot fund it")
+		return
+	}
+	s.rc.Probe("funding_chain_submitted")
+	if t.Choose("chain-lead", 2) == 1 {
+		// an unrelated small transaction ahead of the chain
+		s.submit(s.mkTx(rich, poor[len(poor)-1], now, 1, s.stepMin, 0), "chain-lead")
+	}
+	senders := append([]int{rich}, poor[:hops]...)
+	for i := 0; i <= hops; i++ {
+		to := poor[i%len(poor)]
+		if i == hops {
+			to = poor[len(poor)-1]
+			if to == senders[i] {
+				to = rich
+			}
+		}
+		msg := 0
+		if i < hops {
+			msg = []int{0, 200, 600}[t.Weighted("chain-msg", 2, 3, 3)]
+		}
+		s.submit(s.mkTx(senders[i], to, now, amounts[i], s.stepMin, msg), fmt.Sprintf("chain-hop%d", i))
+	}
+}
+
+func (s *c37) opClient() {
+	t := s.t
+	var p *ptx
+	kind := "fresh"
+	if len(s.known) > 0 && t.Weighted("client-kind", 7, 3) == 1 {
+		p = s.known[t.Choose("resubmit", len(s.known))]
+		kind = "resubmit"
+		if p.committed {
+			kind = "resubmit-committed"
+			s.rc.Probe("client_resubmits_committed_tx")
+		}
+	} else {
+		p = s.newTx()
+	}
+	s.submit(p, kind)
 }
 
 func (s *c37) txList(ps []*ptx) module.TransactionList {
@@ -375,6 +454,9 @@ func (s *c37) validateAsBlock(bts int64, ids []string, byID map[string]*ptx) (cl
 			return "proposed-tx-fails-prevalidation", "step-limit", fmt.Sprintf("position %d: tx %s stepLimit=%d < %d", i, short(id), p.stepLimit, s.stepMin)
 		}
 		need := s.need(p)
+		if get(p.from).Cmp(need) >= 0 && s.balanceOf(p.from).Cmp(need) < 0 {
+			s.fundedSpends++ // affordable only through what earlier transactions of the list transferred to the sender
+		}
 		if get(p.from).Cmp(need) < 0 {
 			return "proposed-tx-fails-prevalidation", "cumulative-balance", fmt.Sprintf("position %d: tx %s needs %s, sender %d has %s left after the transactions selected before it", i, short(id), need, p.from, get(p.from))
 		}
@@ -400,8 +482,6 @@ func (s *c37) opPropose() {
 	if bts <= s.lastTS {
 		bts = s.lastTS + 1
 	}
-	maxBytes := []int{0, 300, 700}[t.Weighted("max-bytes", 6, 1, 1)]
-	maxCount := []int{0, 1, 2, 4}[t.Weighted("max-count", 6, 1, 1, 1)]
 	bi := common.NewBlockInfo(s.height+1, bts)
 	byID := map[string]*ptx{}
 	var inPool []*ptx
@@ -413,6 +493,28 @@ func (s *c37) opPropose() {
 			inPool = append(inPool, p)
 		}
 	}
+	// block byte budget (chain MaxBlockTxBytes): unlimited, or drawn so that it ends somewhere
+	// inside the pool: the sizes of the first k pooled transactions plus/minus a little
+	maxBytes := 0
+	switch t.Weighted("max-bytes", 4, 5, 1) {
+	case 1:
+		k := t.Choose("max-bytes-k", len(inPool)+1)
+		next := 130
+		for i, p := range inPool {
+			if i < k {
+				maxBytes += p.size
+			} else if i == k {
+				next = p.size
+			}
+		}
+		maxBytes += []int{0, -1, next / 2, next - 1, 1, next + 1}[t.Choose("max-bytes-off", 6)]
+		if maxBytes < 1 {
+			maxBytes = 1
+		}
+	case 2:
+		maxBytes = []int{300, 700}[t.Choose("max-bytes-fixed", 2)]
+	}
+	maxCount := []int{0, 1, 2, 4}[t.Weighted("max-count", 5, 2, 2, 1)]
 
 	// ---- the proposer (service.manager.ProposeTransition, minus base/dsr transactions)
 	ws, err := state.WorldStateFromSnapshot(service.WorldSnapshotOfTransition(s.cur))
@@ -485,10 +587,54 @@ func (s *c37) opPropose() {
 		s.rc.Probe("proposal_with_several_txs")
 	}
 
+	// ---- probes: did a byte/count limit end the selection inside the pool?
+	if maxBytes > 0 || maxCount > 0 {
+		used := 0
+		for _, id := range ids {
+			if p := byID[id]; p != nil {
+				used += p.size
+			}
+		}
+		var sizeSkipped, fits, appendable int
+		for _, p := range inPool {
+			if sel[p.id] || !(bts-s.th < p.ts && p.ts <= bts+s.th) || s.chainIDs[p.id] || p.stepLimit < s.stepMin {
+				continue
+			}
+			// would the reference accept it right behind the selected list?
+			if c, _, _ := s.validateAsBlock(bts, append(append([]string{}, ids...), p.id), byID); c != "" {
+				if maxBytes > 0 && p.size <= maxBytes-used {
+					fits++ // small enough, but (at this point) not affordable
+				}
+				continue
+			}
+			appendable++
+			if maxBytes > 0 && p.size > maxBytes-used {
+				sizeSkipped++
+			} else if maxBytes > 0 {
+				fits++
+			}
+		}
+		if sizeSkipped > 0 {
+			s.rc.Probe("tx_skipped_for_size")
+			if fits > 0 {
+				// the budget was exhausted by a transaction in the middle of the pool while
+				// smaller ones were still waiting behind it
+				s.rc.Probe("byte_limit_hit_inside_pool")
+			}
+		}
+		if maxCount > 0 && len(ids) == maxCount && appendable > 0 {
+			s.rc.Probe("count_limit_hit_inside_pool")
+		}
+	}
+
 	// ---- oracle 1: independent re-validation as a block
+	s.fundedSpends = 0
 	if class, sig, detail := s.validateAsBlock(bts, ids, byID); class != "" {
 		s.rc.Violate(class, sig, "proposal for height %d (block ts %d): %s", s.height+1, bts, detail)
 		return
+	}
+	if s.fundedSpends > 0 {
+		s.rc.Probe("recipient_spends_received_funds")
 	}
 
 	// ---- oracle 2: the real validation path of a peer receiving this block
